@@ -2,6 +2,7 @@ package cluster
 
 import (
 	"fmt"
+	"strings"
 	"github.com/kercylan98/minotaur/engine/vivid"
 	"github.com/kercylan98/minotaur/engine/vivid/cluster/internal/cm"
 )
@@ -46,6 +47,11 @@ func (d *drillmasterActor) onActorOf(ctx vivid.ActorContext, m *cm.ActorOf) {
 	ability, exist := d.system.config.abilities[m.Ability]
 	if !exist {
 		ctx.Reply(fmt.Errorf("the ability %s does not support", m.Ability))
+		return
+	}
+	if m.Identity == "" || m.Ability == "" || strings.ContainsAny(m.Identity+m.Ability, " \t\n\f\r\\/") {
+		// vivid refuses such actor names with a panic, which would be an accident of this actor
+		ctx.Reply(fmt.Errorf("identity %q or ability %q is not usable as an actor name", m.Identity, m.Ability))
 		return
 	}
 
